@@ -24,7 +24,7 @@ pub fn extra_engines(prop: &str, thorough: bool) -> Vec<sup::EnginePlan> {
         let wd = if prop == "C09" { if t { 600 } else { 120 } } else if t { 2400 } else { 600 };
         v.push(sup::EnginePlan { engine: "sched", workers: 16, cases_per_worker: if t { 12000 } else { 2500 }, timeout_s: wd });
     }
-    if matches!(prop, "C02" | "C04" | "C07" | "C16") {
+    if matches!(prop, "C02" | "C04" | "C05" | "C07" | "C08" | "C10" | "C11" | "C16") {
         v.push(sup::EnginePlan { engine: "stress", workers: 4, cases_per_worker: 1, timeout_s: if t { 1800 } else { 600 } });
     }
     if t && matches!(prop, "C01" | "C03" | "C04" | "C05" | "C06" | "C07" | "C08" | "C10" | "C11" | "C12" | "C13" | "C14" | "C16") {
@@ -66,6 +66,8 @@ pub fn rule_for(prop: &str, engine: &str) -> String {
             "C04" => stress::RULE_C04,
             "C16" => stress::RULE_C16,
             "C07" => stress::RULE_C07,
+            "C05" => stress::RULE_C05,
+            "C08" | "C10" | "C11" => stress::RULE_MIXED,
             _ => stress::RULE_C02,
         }
         .to_string(),
